@@ -193,3 +193,69 @@ mod transports {
         core::mem::forget(r);
     }
 }
+
+// ---------------------------------------------------------------- C10: server GUID = exactly 32 hexadecimal digits
+mod guid_c10 {
+    use super::no_format;
+    use crate::Guid;
+
+    fn is_hex(b: u8) -> bool {
+        (b >= b'0' && b <= b'9') || (b >= b'a' && b <= b'f') || (b >= b'A' && b <= b'F')
+    }
+    fn spec_guid(s: &[u8]) -> bool {
+        if s.len() != 32 {
+            return false;
+        }
+        let mut i = 0;
+        while i < 32 {
+            if !is_hex(s[i]) {
+                return false;
+            }
+            i += 1;
+        }
+        true
+    }
+
+    /// 31..=33 bytes, four fully symbolic ASCII positions (first, two in the middle, last), the rest fixed hex digits.
+    #[kani::proof]
+    #[kani::unwind(40)]
+    #[kani::stub(alloc::fmt::format, no_format)]
+    fn c10_guid_plain() {
+        let mut buf = [b'a'; 33];
+        let x: [u8; 4] = kani::any();
+        kani::assume(x[0] < 0x80 && x[1] < 0x80 && x[2] < 0x80 && x[3] < 0x80);
+        buf[0] = x[0];
+        buf[13] = x[1];
+        buf[20] = x[2];
+        let len: usize = kani::any();
+        kani::assume(len >= 31 && len <= 33);
+        buf[len - 1] = x[3];
+        let s = unsafe { core::str::from_utf8_unchecked(&buf[..len]) };
+        let r = Guid::try_from(s);
+        let real = r.is_ok();
+        core::mem::forget(r);
+        let model = spec_guid(&buf[..len]);
+        kani::cover!(real, "accepted");
+        kani::cover!(!real && len == 32, "rejected 32-byte string");
+        assert!(real == model, "GUID acceptance differs from '32 hexadecimal digits'");
+    }
+
+    /// UUID-like forms (hyphenated 8-4-4-4-12, braced, urn:uuid:) must be rejected.
+    #[kani::proof]
+    #[kani::unwind(50)]
+    #[kani::stub(alloc::fmt::format, no_format)]
+    fn c10_guid_uuid_forms() {
+        let which: u8 = kani::any();
+        kani::assume(which < 3);
+        let s: &'static str = match which {
+            0 => "0123abcd-0123-abcd-0123-abcd0123abcd",
+            1 => "{0123abcd-0123-abcd-0123-abcd0123abcd}",
+            _ => "urn:uuid:0123abcd-0123-abcd-0123-abcd0123abcd",
+        };
+        let r = Guid::try_from(s);
+        let real = r.is_ok();
+        core::mem::forget(r);
+        kani::cover!(which == 2, "urn form");
+        assert!(!real, "a UUID-formatted string was accepted as a server GUID");
+    }
+}
